@@ -62,6 +62,8 @@ type vProcT struct {
 	crashed   chan struct{} // closed when the processor goroutine panicked (the real worker would exit 3)
 	tainted   map[string]bool
 	snap      map[*App]vSnap // the applications' timestamps as corrected at the start of the previous op
+	loopHeld  bool           // op park: the loop is held at its progress report; what arrives meanwhile waits in its channels
+	owedTicks int            // turns the loop will take once it is released (failed requests answered meanwhile)
 	genErrs   int            // requests whose body could not be generated (they failed at once)
 	genSeen   int            // ... of which the processor's extra turn has been collected
 	slowHold  chan struct{}  // non-nil: the processor loop is inside AggregateInto of a slow transaction, waiting for this
@@ -106,6 +108,9 @@ func (v *vProcT) compensate() {
 
 // settleGenErrs collects the processor's turns for requests that failed at once because their body could not be generated
 func (v *vProcT) settleGenErrs() {
+	if v.loopHeld {
+		return
+	}
 	for k := 0; k < 3; k++ {
 		vQuiesce()
 		v.mu.Lock()
@@ -1156,6 +1161,33 @@ func vProcOp(t []string) string {
 		return "stuck"
 	}
 	switch op {
+	case "park":
+		// proc park: hold the processor loop at the end of a turn (a transaction for a run nobody holds is taken, its progress
+		// report is not collected).  Until `unpark`, failed requests that are answered queue their hand-back behind it, and
+		// `trigger … direct=1` / `txn … direct=1` run the loop's own handlers in its place: an interleaving in which another
+		// application's harvest and traffic are handled between a request's failure and the processing of its hand-back.
+		if v.loopHeld {
+			return "ok"
+		}
+		v.p.IncomingTxnData(AgentRunID("r-nobody-holds"), FlatTxn(vBuildTxn("r-nobody-holds", []string{"proc", "txn", "r-nobody-holds", "name=t0"})))
+		time.Sleep(2 * time.Millisecond)
+		vQuiesce()
+		v.loopHeld = true
+		return "ok"
+	case "unpark":
+		if !v.loopHeld {
+			return "ok"
+		}
+		v.loopHeld = false
+		if !v.tick() { // the turn it was held at
+			return v.stuckOrCrashed()
+		}
+		for ; v.owedTicks > 0; v.owedTicks-- {
+			if !v.tick() {
+				return v.stuckOrCrashed()
+			}
+		}
+		return "reqs=" + v.collect(vExpect(t))
 	case "pending":
 		// diagnostic: is the processor waiting to report a turn nobody has collected?
 		select {
@@ -1326,6 +1358,13 @@ func vProcOp(t []string) string {
 		return fmt.Sprintf("reply=%s reqs=%s", vDecodeAppReply(MarshalAppInfoReply(reply)), v.collect(vExpect(t)))
 	case "txn":
 		msg := vBuildTxn(vStr(t, 2), t)
+		if v.loopHeld {
+			if vKVor(t, "direct", "0") != "1" {
+				return "bad-op"
+			}
+			v.p.processTxnData(TxnData{ID: AgentRunID(vStr(t, 2)), Sample: FlatTxn(msg)})
+			return "ok"
+		}
 		done := make(chan error, 1)
 		go func() {
 			_, err := CommandsHandler{Processor: v.p}.HandleMessage(RawMessage{Type: MessageTypeBinary, Bytes: msg})
@@ -1367,6 +1406,13 @@ func vProcOp(t []string) string {
 			return "no-such-run"
 		}
 		mask := vNat(t, 3)
+		if v.loopHeld {
+			if vKVor(t, "direct", "0") != "1" {
+				return "bad-op"
+			}
+			v.p.doHarvest(ProcessorHarvest{AppHarvest: ah, ID: run, Type: HarvestType(mask)})
+			return "reqs=" + v.collect(vExpect(t))
+		}
 		select {
 		case v.p.processorHarvestChan <- ProcessorHarvest{AppHarvest: ah, ID: run, Type: HarvestType(mask)}:
 		case <-time.After(vWatchdog):
@@ -1410,6 +1456,15 @@ func vProcOp(t []string) string {
 			needTick = !ok
 		}
 		r.ch <- resp
+		if v.loopHeld {
+			// the hand-back (if any) queues behind the held loop
+			if needTick {
+				v.owedTicks++
+			}
+			time.Sleep(2 * time.Millisecond)
+			vQuiesce()
+			return "reqs=-" + changed
+		}
 		if needTick && !v.tick() {
 			return "stuck"
 		}
